@@ -1,3 +1,126 @@
-(* C08 -- statements land here; model XV.XmlFmt, projections XV.Projections, proofs XV.XmlFmtProofs*. *)
-From Coq Require Import List NArith.
-Require Import XV.XmlFmt.
+(* C08 -- the XML formatter always returns well-formed, placeholder-free markup.
+
+   Model: XV.XmlFmt, tied to xmldiff/formatting.py by harness/xmlfmt_corr.py on every run.
+   Only statements here; proofs in XV.XmlFmtProofs0-9, A, B, C.
+
+   What is claimed of the model, and what is left to lxml:
+     "completes"          xml_format .. = FOk T : no ValueError from _xpath, no KeyError from the attribute
+                          handlers, no failed assert in _realign_placeholders, no IndexError in undo_string;
+     "placeholder-free"   out_clean T: no character of (U+E000, U+F8FF] in any tag, attribute NAME, attribute VALUE
+                          (old-text included), text or tail;
+     "diff namespace only as documented"  out_clean T as well: an element in the diff namespace is diff:insert /
+                          diff:delete / diff:replace, an attribute in it is diff:insert, diff:delete, diff:replace,
+                          diff:rename, diff:{add,delete,rename,update}-attr or diff:{insert,delete,replace}-formatting;
+     "parses as XML"      serialisation and re-parsing are lxml's: TESTED by re-parsing the printed string on every
+                          run (oracle_C08), not proved.
+
+   Vocabulary: see Properties/C09.v (L, W, run_spec, render_script, fscript_ok, names_plain, run_ok, npua, clean_tags,
+   nodiff); in addition
+     wclean W             no private-use character in the tags, attribute names and values of the document, no element
+                          or attribute of it in the diff namespace other than documented ones;
+     iact_plain           the strings the script brings (tags, attribute names and values) have no private-use
+                          character, tags are not in the diff namespace, and there is no InsertComment (the formatter
+                          has no handler for it; prepare() removed the comments);
+     DMPTotalMain.bisect_safe   the one open obligation of the text-diff model (XV.DMPTotalMain): diff_bisect's
+                          middle-snake search returns on the inputs diff_compute gives it.  diff_main is total under
+                          it (diff_main_total); diff_cleanupSemantic is total unconditionally (cleanupSemantic_total).
+
+   PARTIAL: proved for configurations without text tags and without use_replace, under bisect_safe and run_ok.
+   With use_replace AND text_tags the full statement is FALSE (C08_total_clean_refuted, open finding
+   "use_replace-with-text_tags").  Not covered by a theorem: text_tags <> [] with use_replace = false, and
+   use_replace = true with text_tags = [] (correspondence + oracle only). *)
+From Coq Require Import List NArith ZArith Bool.
+Import ListNotations.
+Require Import XV.Str XV.Json XV.TextFormat XV.Forest XV.Matcher XV.Differ XV.Spec XV.Path XV.WF XV.PathProofs XV.Render
+               XV.XmlFmt XV.Projections XV.XmlFmtProofs1 XV.XmlFmtProofs2 XV.XmlFmtProofs3 XV.XmlFmtProofs4 XV.XmlFmtProofs5
+               XV.XmlFmtProofs9 XV.XmlFmtProofsB XV.XmlFmtProofsC.
+Require XV.Placeholder XV.PlaceholderUndo XV.DMP XV.DMPTotalMain.
+Local Open Scope N_scope.
+
+Theorem C08_total_clean_partial :
+  forall (c : cfg) (o : oracle) (rootns : list (option str * str)) (pe : penv) (root : id)
+         (L : forest) (script : list iact) (gs : list gaction) (fT : forest),
+  c_tt c = [] -> c_replace c = false -> DMPTotalMain.bisect_safe ->
+  wf_forest L root -> (forall m, desc L root m -> is_comment (ltag (flab L m)) = false) ->
+  let W := remove_comments (doc_tree L root) in
+  PlaceholderUndo.npua W = true -> clean_tags W -> nodiff W -> wclean W ->
+  run_spec root L script = Some fT -> render_script pe root L script = Some gs ->
+  fscript_ok rootns pe root [(Some DIFF_PREFIX, DIFF_NS)] L script ->
+  Forall names_plain script -> Forall iact_plain script ->
+  run_ok c o rootns (FS W Placeholder.ph_init [(Some DIFF_PREFIX, DIFF_NS)]) gs ->
+  exists T, xml_format c o rootns Placeholder.ph_init gs W = FOk T /\ out_clean T = true.
+Proof.
+  intros c o rootns pe root L script gs fT _ Hrep Hbis. exact (format_total_clean c o rootns pe root Hrep Hbis L script gs fT).
+Qed.
+Print Assumptions C08_total_clean_partial.
+
+(* whatever the script: once the handlers have returned, finalize returns as well (every open placeholder of a
+   marked-up text is closed: no IndexError in undo_string) and the result is clean *)
+Theorem C08_finalize_clean : forall W, winv W -> wclean W ->
+  exists T, finalize Placeholder.ph_init W = FOk T /\ out_clean T = true.
+Proof. exact finalize_clean. Qed.
+Print Assumptions C08_finalize_clean.
+
+(* the handlers keep the invariants finalize needs, one action at a time *)
+Theorem C08_step_invariants :
+  forall (c : cfg) (o : oracle) (rootns : list (option str * str)) (st : fstate) (d : dact) (st' : fstate),
+  c_replace c = false -> winv (fs_tree st) -> wclean (fs_tree st) -> fs_ph st = Placeholder.ph_init ->
+  step_ok rootns st d -> act_plain d -> handle_d c o rootns st d = FOk st' ->
+  winv (fs_tree st') /\ wclean (fs_tree st') /\ fs_ph st' = Placeholder.ph_init.
+Proof.
+  intros c o rootns st d st' Hrep HW HC Hph Hok Hpl H.
+  destruct (step_reject c o rootns Hrep st d st' HW Hph Hok H) as (A & B & _).
+  split; [exact A|]. split; [exact (step_clean c o rootns st d st' HC Hok Hpl H)|exact B].
+Qed.
+Print Assumptions C08_step_invariants.
+
+(* REFUTED in general (open finding "use_replace-with-text_tags", both witnesses replayed on the implementation by
+   harness/xmlfmt_corr.py KNOWN_STREAM on every run):
+   (a) <p>a<b>c</b>d</p> vs <p>a<b>x</b>cd</p>, text_tags = p, formatting_tags = b, use_replace: format() raises
+       IndexError (pop from empty list in undo_string);
+   (b) <a><a/></a> vs <c><a k="1"/></c>, text_tags = a, c, use_replace: the output carries old-text="". *)
+Definition wE (tag : str) (text tail : option str) (kids : list tree) : tree := Node (Lab (TElem tag) [] text tail) kids.
+Definition w_o : oracle :=
+  Orc {| DMP.isalnum := fun c => (97 <=? c) && (c <=? 122); DMP.isspace := fun c => c =? 32 |} (fun _ => false).
+Definition w_upd (path : str) (t : option str) : gaction :=
+  GA n_UpdateTextIn [PStr path; match t with Some x => PStr x | None => PNone end].
+Definition wa_L : tree := wE [112] (Some [97]) None [wE [98] (Some [99]) (Some [100]) []].
+Definition wa_R : tree := wE [112] (Some [97]) None [wE [98] (Some [120]) (Some [99;100]) []].
+Definition wa_c : cfg := Cfg 0 true [[112]] [[98]].
+Definition wb_L : tree := wE [97] None None [wE [97] None None []].
+Definition wb_R : tree := wE [99] None None [Node (Lab (TElem [97]) [([107],[49])] None None) []].
+Definition wb_c : cfg := Cfg 0 true [[97];[99]] [].
+
+Theorem C08_total_clean_refuted :
+  (exists c L R gs, let '(s, L', R') := prepare c L R in
+     PlaceholderUndo.npua (remove_comments L) = true /\ PlaceholderUndo.npua (remove_comments R) = true /\
+     gs = [w_upd [47;112;91;49;93] (Placeholder.xtext R')] /\
+     xml_format c w_o [] s gs L' = FErr FIndexError) /\
+  (exists c L R gs T, let '(s, L', R') := prepare c L R in
+     PlaceholderUndo.npua (remove_comments L) = true /\ PlaceholderUndo.npua (remove_comments R) = true /\
+     gs = [GA n_RenameNode [PStr [47;97;91;49;93]; PStr [99]]; w_upd [47;99;91;49;93] (Placeholder.xtext R')] /\
+     xml_format c w_o [] s gs L' = FOk T /\ out_clean T = false).
+Proof.
+  split.
+  - exists wa_c, wa_L, wa_R, [w_upd [47;112;91;49;93] (Some [97; 57354; 120; 57353; 99; 100])]. vm_compute. auto.
+  - exists wb_c, wb_L, wb_R,
+      [GA n_RenameNode [PStr [47;97;91;49;93]; PStr [99]]; w_upd [47;99;91;49;93] (Some [57352])].
+    eexists. vm_compute. repeat split.
+Qed.
+Print Assumptions C08_total_clean_refuted.
+
+(* Non-vacuity of the partial theorem: the example of Properties/C09.v, under bisect_safe *)
+Definition exL : forest := mk_forest [(0%nat, [1%nat; 2%nat])]
+  [(0%nat, Lab (TElem [97]) [] None None); (1%nat, Lab (TElem [98]) [] (Some [120;121]) (Some [116]));
+   (2%nat, Lab (TElem [99]) [] None None)] 3.
+Definition exS : list iact :=
+  [IMove 2%nat 1%nat 0%nat; IText 1%nat (Some [120;122]); IRename 2%nat [100]; IInsAttr 0%nat [107] [49];
+   IInsert 0%nat [101] 0%nat 3%nat; IDelete 3%nat].
+Definition exC : cfg := Cfg 0 false [] [].
+
+Example C08_example :
+  exists T, xml_format exC w_o [] Placeholder.ph_init
+              (match render_script (fun _ => None) 0%nat exL exS with Some gs => gs | None => [] end)
+              (remove_comments (doc_tree exL 0%nat)) = FOk T /\ out_clean T = true.
+Proof. eexists. vm_compute. split; reflexivity. Qed.
+Print Assumptions C08_example.
